@@ -249,3 +249,53 @@ func sameItems(a, b []byte) bool {
 	}
 	return true
 }
+
+// lazyDupSignature recognises the root cause of KF-messageset-lazy-dup-item in a Marshal output:
+// an item that, besides its type_id X and message, holds a plain bytes field numbered X (a second
+// occurrence of the extension copied in its non-MessageSet encoding).
+func lazyDupSignature(b []byte) bool {
+	for len(b) > 0 {
+		num, typ, n, d := ref.ConsumeTag(b)
+		if d != ref.OK {
+			return false
+		}
+		b = b[n:]
+		if num != 1 || typ != 3 {
+			m, d := ref.ConsumeValue(num, typ, b, ref.DefaultDepth)
+			if d != ref.OK {
+				return false
+			}
+			b = b[m:]
+			continue
+		}
+		var id uint64
+		var plain []int64
+		for {
+			num, typ, n, d := ref.ConsumeTag(b)
+			if d != ref.OK {
+				return false
+			}
+			b = b[n:]
+			if num == 1 && typ == 4 {
+				break
+			}
+			if num == 2 && typ == 0 {
+				v, _, _ := ref.ConsumeVarint(b)
+				id = v
+			} else if typ == 2 && num != 3 {
+				plain = append(plain, num)
+			}
+			m, d := ref.ConsumeValue(num, typ, b, ref.DefaultDepth)
+			if d != ref.OK {
+				return false
+			}
+			b = b[m:]
+		}
+		for _, p := range plain {
+			if uint64(p) == id {
+				return true
+			}
+		}
+	}
+	return false
+}
